@@ -756,7 +756,8 @@ def multiple_case(draw):
     mk = A.multiple_model(model, start, k)
     mk = {v: {"".join(w): h for w, h in nb.items()} for v, nb in mk.items()}
     Lmax = max_len_for(mk, 500, 4)
-    L = draw(st.integers(0, Lmax))
+    L = Lmax - draw(st.integers(0, min(1, Lmax))) if draw(st.booleans()) else \
+        draw(st.integers(0, Lmax))
     return dict(aut=aut, rep=r, k=k, L=L)
 
 
@@ -828,14 +829,14 @@ def _law(name, strategy, body, nontrivial, **kw):
 
 LAWS = [
     _law("accepted_from_start_vs_path_model", accept_case(["default", "start"]), body_accept, nt,
-         quick=120, thorough=1200, shards=(2, 6),
+         quick=200, thorough=1500, shards=(2, 8),
          exhaustive=exhaustive_accept(["default", "start"], [True, False])),
     _law("accepted_to_end_state_maxlen_vs_path_model", accept_case(["end"], maxlens=(True,)),
-         body_accept, nt, quick=120, thorough=1200, shards=(2, 6),
+         body_accept, nt, quick=200, thorough=1500, shards=(2, 8),
          exhaustive=exhaustive_accept(["end"], [True])),
     _law("accepted_to_end_state_exact_length_vs_path_model",
-         accept_case(["end"], maxlens=(False,)), body_accept, nt, quick=120, thorough=1200,
-         shards=(2, 6), exhaustive=exhaustive_accept(["end"], [False])),
+         accept_case(["end"], maxlens=(False,)), body_accept, nt, quick=200, thorough=1500,
+         shards=(2, 8), exhaustive=exhaustive_accept(["end"], [False])),
     _law("agrees_with_fsa_enumeration", accept_case(["default"], cap=300), body_fsa_enum, nt,
          quick=100, thorough=1000, shards=(1, 4)),
     _law("freely_reduced_each_once", free_case(), body_free, lambda l: "nt" in l, quick=60,
@@ -844,6 +845,6 @@ LAWS = [
          shards=(2, 6)),
     _law("builtin_automata", builtin_case(), body_builtin, lambda l: "nondefault" in l, quick=30,
          thorough=300, shards=(1, 4), exhaustive=exhaustive_builtin),
-    _law("automaton_multiple_outputs", multiple_case(), body_multiple, nt, quick=80,
-         thorough=800, shards=(1, 4)),
+    _law("automaton_multiple_outputs", multiple_case(), body_multiple, nt, quick=120,
+         thorough=1000, shards=(1, 4)),
 ]
